@@ -277,8 +277,13 @@ def case_wait(rng, ops, domain=True, big=False):
     BASES = BASES_SMALL
     n = rng.choice(BIG_ATTEMPTS if big else ATTEMPTS)
     seed = rng.randrange(1 << 16)
-    v = py(n, seed=seed)
-    fv = Fraction(v)  # raises for inf/nan -> machinery error, which is what we want to see
+    try:
+        v = py(n, seed=seed)
+        fv = Fraction(v)
+    except Exception as ex:  # noqa: BLE001 - the strategy raised / returned inf or nan
+        v = ex
+        return "1", dict(kind="wait", term=g, attempts=n, seed=seed, py="raised %r" % ex), \
+            ("wait-raised", g.split()[0], n), (py, g, n, seed, v)
     e = "oq_agree %s (Some (wait_eval %s %s %s %s)) (Some %s)" % (
         "eps" if jit else "(Qmake 0 1)", g_rng(seed), g_seed(seed), g, gz(n), q(fv))
     return e, dict(kind="wait", term=g, attempts=n, seed=seed, py=str(fv)), \
@@ -353,6 +358,8 @@ def py_bounds(w):
 def monitor_wait(py, n, seed, v):
     """returns None when the property holds on this input, else a description."""
     import math
+    if isinstance(v, BaseException):
+        return "raised %r instead of returning a delay" % v
     if not isinstance(v, float) and not isinstance(v, int):
         return "non-numeric delay %r" % (v,)
     if math.isnan(v) or math.isinf(v):
